@@ -108,6 +108,20 @@ impl<K: Eq + Hash + Clone> LruList<K> {
     }
   }
 
+  /// Updates the recorded cost of an existing item without changing its
+  /// position. Returns `false` if the key is not in the list.
+  pub fn update_cost(&mut self, key: &K, cost: u64) -> bool {
+    match self.lookup.get(key) {
+      Some(&index) => {
+        let old_cost = self.nodes[index].cost;
+        self.current_cost = self.current_cost.saturating_sub(old_cost) + cost;
+        self.nodes[index].cost = cost;
+        true
+      }
+      None => false,
+    }
+  }
+
   pub fn move_to_front(&mut self, key: &K) {
     if let Some(&index) = self.lookup.get(key) {
       // Only move if it's not already the head.
